@@ -241,7 +241,7 @@ void World::finish() {
     if (asim::live_blocks() != base_live) {
         std::string d = "after deleting every remaining root " + std::to_string(asim::live_blocks() - base_live) + " block(s) are still allocated:" + asim::describe_live();
         if (cfg.judge_memory) violation("leak", d);
-        if (cfg.fault_mode) violation("leak-after-failure", d);
+        if (cfg.fault_mode && !cfg.fault_mode_counting) violation("leak-after-failure", d);
         discard("leak outside this property's oracles: " + d);
     }
     log.add("finish: ledger balanced");
